@@ -74,7 +74,7 @@ def main(args):
             )
             target_virtual_file.open_virtual_file()
             for number, file in enumerate(virtual_file.list_files()):
-                filename = file.name.strip().replace("\0", "")
+                filename = file.name.strip().replace("\0", "").upper()
                 if files_to_include is None or filename in files_to_include:
                     print("-- File #{} [{}] --".format(number + 1, filename))
                     target_virtual_file.add_coco_file(file)
@@ -88,7 +88,7 @@ def main(args):
             )
             target_virtual_file.open_virtual_file()
             for number, file in enumerate(virtual_file.list_files()):
-                filename = file.name.strip().replace("\0", "")
+                filename = file.name.strip().replace("\0", "").upper()
                 if files_to_include is None or filename in files_to_include:
                     print("-- File #{} [{}] --".format(number + 1, filename))
                     target_virtual_file.add_coco_file(file)
@@ -107,7 +107,7 @@ def main(args):
                 sys.exit(1)
 
             file = files[0]
-            filename = file.name.strip().replace("\0", "")
+            filename = file.name.strip().replace("\0", "").upper()
             if files_to_include is None or filename in files_to_include:
                 print("-- File #1 [{}] --".format(filename))
                 target_virtual_file.add_coco_file(file)
